@@ -6,12 +6,14 @@ holopy.inference and holopy.inference.prior that derives from HoloPyObject is
 discovered by introspection; per constructor argument an explicit alphabet by
 argument kind (reals incl. extreme magnitudes and -0.0, int, complex, numpy
 scalars, vectors as list / tuple / ndarray, priors of every kind, nested
-objects, dicts, explicit None) is enumerated -- the full product for classes
-with <= 3 arguments, all vectors with <= D deviations from the base vector for
-wider ones.  Every object goes through every target (file name, open binary
-stream, yaml.dump / yaml.load with the library's loader) for 1..3 consecutive
-save/load cycles; base objects additionally through every mixed sequence of
-targets of length <= 3.
+objects, dicts, explicit None) is enumerated: every label of every argument
+in a single-deviation sweep from the base vector, the full product of the core
+labels for classes with <= 3 arguments, and all vectors of core labels with
+<= D deviations from the base vector for wider classes and models.  Every
+object goes through every target (file name, open binary stream, yaml.dump /
+yaml.load with the library's loader) for 1..3 consecutive save/load cycles;
+base objects additionally through every mixed sequence of targets of length
+<= 3, single deviations of the core through those of length 2.
 
 Oracle (no expected values written by hand -- only relations the property
 states): canonical form of the reloaded object (class name + every __init__
@@ -33,13 +35,15 @@ from lib import Checker, digest
 
 PROPERTY = "C15"
 RULE = ("cases = blocks of constructor-argument vectors per discovered "
-        "HoloPyObject class: full product of the per-argument alphabets for "
-        "classes with <= 3 arguments, every vector with <= D deviations from "
-        "the base vector (D = 2 quick / 3 thorough) for wider classes and for "
-        "models (arguments + 0..2 ties); each object x {file, stream, yaml} x "
-        "cycles 1..3, base objects x every target sequence of length <= 3; a "
-        "case is non-trivial when the fingerprint of the texts it produced "
-        "differs from other cases'")
+        "HoloPyObject class: every label of every argument alphabet as a "
+        "single deviation from the base vector; full product of the core "
+        "labels (quick core / thorough core) for classes with <= 3 arguments;"
+        " every vector of core labels with <= D deviations (D = 2 quick / 3 "
+        "thorough) for wider classes and for models (arguments + 0..2 ties "
+        "through add_tie); each object x {file, stream, yaml} x cycles 1..3, "
+        "base objects x every target sequence of length <= 3, core single "
+        "deviations x every sequence of length 2; a case is non-trivial when "
+        "the fingerprint of the texts it produced differs from other cases'")
 ASSUMPTIONS = [
     "random sampling of constructor arguments is replaced by explicit "
     "alphabets per argument kind; values outside the alphabets are not "
@@ -60,6 +64,9 @@ ASSUMPTIONS = [
 TOLERANCES = {"all checks": "exact (canonical forms, texts and parameter "
                             "names are compared for identity)"}
 TIMEOUT = 300
+# complete within the declared alphabets and deviation bound; the product is
+# complete only for classes with <= 3 arguments (coverage: per_class)
+EXHAUSTIVE = False
 MAXBLOCK = 48
 MAXVIOL = 30
 
@@ -317,6 +324,9 @@ def _registry():
     reg("F:tuple2", lambda: (half_ball, unit_ball), False)
     reg("F:indicators", lambda: sc.Indicators(
         [unit_ball], [[-1.0, 1.0], [-1.0, 1.0], [-1.0, 1.0]]))
+    # bound methods of HoloPy objects are written as "!method name of obj"
+    reg("F:method", lambda: [sph().contains])
+    reg("F:method-ell", lambda: [R["S:ell"][0]().contains])
     reg("B:unit", lambda: [[-1.0, 1.0], [-1.0, 1.0], [-1.0, 1.0]])
     reg("B:tuple", lambda: ((-1.0, 1.0), (-1.0, 1.0), (-1.0, 1.0)), False)
     reg("B:arr", lambda: np.array([[-1.0, 1.0]] * 3), False)
@@ -331,6 +341,8 @@ def _registry():
     reg("Tr:maximum", lambda: np.maximum)
     reg("Tr:custom", lambda: custom_transformation)
     reg("Tr:complex", lambda: complex)
+    # a HoloPy class as a callable: written as "!class module.Name"
+    reg("Tr:class", lambda: sc.Sphere)
     reg("BP:single", lambda: U())
     reg("BP:list1", lambda: [U()])
     reg("BP:tuple1", lambda: (U(),), False)
@@ -463,7 +475,7 @@ P:U-named P:rdiv P:max P:sq-shared P:CP2
 V3:shared V3:ext V2:shared V2:ext N2:shared N2:ext N2:cprior
 D:f32 D:full D:tols-np S:b-near S:a-nNone L:mixed L:same-twice Sp:three
 T:Multisphere-opts T:AberratedMieLens-prior T:Lens-Lens
-F:tuple2 B:arr F:calc_field Tr:pow BP:tuple1 BP:pair-tuple BP:pair-np
+F:tuple2 B:arr F:calc_field Tr:pow Tr:class BP:tuple1 BP:pair-tuple BP:pair-np
 M:sphere-named M:sphere-tuple M:layered M:spheroid
 O:red-green-np O:pol-arr O:xr-prior C:two
 """.split())
@@ -501,11 +513,12 @@ TABLE = {
                      "translation": ROT3, "rotation": ROT3},
     "Union": _CSG, "Difference": _CSG, "Intersection": _CSG,
     "CsgScatterer": _CSG,
-    "Scatterer": {"indicators": ["F:unit_ball", "F:list2", "F:indicators"],
+    "Scatterer": {"indicators": ["F:unit_ball", "F:list2", "F:indicators",
+                                 "F:method", "F:method-ell"],
                   "n": ["1.5", "cplx", "c128", "f32", "N2:list"],
                   "center": VEC3},
     "Indicators": {"functions": ["F:list1", "F:unit_ball", "F:list2",
-                                 "F:tuple2"],
+                                 "F:tuple2", "F:method", "F:method-ell"],
                    "bound": [OMIT, "None", "B:unit", "B:tuple", "B:arr"]},
     # ---- theories --------------------------------------------------------
     "Mie": {"compute_escat_radial": [OMIT] + BOOLF,
@@ -584,7 +597,8 @@ TABLE = {
                                         "f64-hi", "f32-hi", "1e300"],
                         "name": [OMIT] + NAME},
     "TransformedPrior": {"transformation": ["Tr:exp", "Tr:add", "Tr:pow",
-                                            "Tr:maximum", "Tr:custom"],
+                                            "Tr:maximum", "Tr:custom",
+                                            "Tr:class", "Tr:complex"],
                          "base_prior": ["BP:single", "BP:list1",
                                         "BP:tuple1", "BP:pair",
                                         "BP:pair-rev", "BP:pair-priors",
@@ -642,6 +656,33 @@ TIE_PLANS = {
 }
 
 
+_ONE_ARITY_BP = ("BP:single", "BP:list1", "BP:tuple1")
+
+
+def _couple(clsname, vec, dev):
+    """arguments whose validity depends on another argument: when only one
+    of the pair deviates, the other one follows (so that e.g. every layered
+    index alphabet value of Sphere is explored with a layered radius)."""
+    def follow(a, b, a_special, b_value):
+        if a in dev and b not in dev and a_special(vec.get(a, "")):
+            vec[b] = b_value
+    if clsname == "Sphere":
+        follow("n", "r", lambda x: x.startswith("N2:"), "V2:list")
+        follow("r", "n", lambda x: x.startswith("V2:"), "N2:list")
+    elif clsname in ("Union", "Difference", "Intersection", "CsgScatterer"):
+        follow("s1", "s2", lambda x: x == "S:a-cplx", "S:b-cplx")
+        follow("s2", "s1", lambda x: x == "S:b-cplx", "S:a-cplx")
+    elif clsname == "Scatterer":
+        follow("indicators", "n", lambda x: x == "F:list2", "N2:list")
+        follow("n", "indicators", lambda x: x == "N2:list", "F:list2")
+    elif clsname == "TransformedPrior":
+        follow("transformation", "base_prior",
+               lambda x: x not in ("Tr:exp", "Tr:custom"), "BP:pair")
+        follow("base_prior", "transformation",
+               lambda x: x not in _ONE_ARITY_BP, "Tr:add")
+    return vec
+
+
 def _side_condition(clsname, vec):
     """False for vectors that are not valid constructor arguments (declared
     side-conditions; the constructors themselves do not check these)."""
@@ -655,7 +696,7 @@ def _side_condition(clsname, vec):
         c2 = g("s2") == "S:b-cplx"
         return c1 == c2
     if clsname == "TransformedPrior":
-        one = g("base_prior") in ("BP:single", "BP:list1", "BP:tuple1")
+        one = g("base_prior") in _ONE_ARITY_BP
         if g("transformation") == "Tr:exp":
             return one
         if g("transformation") == "Tr:custom":
@@ -675,9 +716,16 @@ def _side_condition(clsname, vec):
 # --------------------------------------------------------------------------
 # discovery
 # --------------------------------------------------------------------------
+_CLASSES = None
+_INIT_ARGS = {}
+
+
 def discover():
     """-> {class name: class} for every HoloPyObject subclass exported by the
     packages of DISCOVER_MODULES (introspection; nothing is listed by hand)"""
+    global _CLASSES
+    if _CLASSES is not None:
+        return _CLASSES
     import importlib
     from holopy.core.holopy_object import HoloPyObject
     found = {}
@@ -694,16 +742,20 @@ def discover():
             if inspect.isclass(o) and issubclass(o, HoloPyObject) and \
                     o is not HoloPyObject:
                 found.setdefault(o.__name__, o)
-    return dict(sorted(found.items()))
+    _CLASSES = dict(sorted(found.items()))
+    return _CLASSES
 
 
 def init_args(cls):
     """[(name, default or inspect.Parameter.empty)] of cls.__init__"""
+    if cls in _INIT_ARGS:
+        return _INIT_ARGS[cls]
     out = []
     for p in list(inspect.signature(cls.__init__).parameters.values())[1:]:
         if p.kind in (p.VAR_POSITIONAL, p.VAR_KEYWORD):
             continue
         out.append((p.name, p.default))
+    _INIT_ARGS[cls] = out
     return out
 
 
@@ -774,6 +826,7 @@ def _vectors(clsname, axes, tier):
                 vec = {nm: axes[nm][0] for nm in names}
                 for i, lab in zip(which, combo):
                     vec[names[i]] = lab
+                _couple(clsname, vec, [names[i] for i in which])
                 if not _side_condition(clsname, vec):
                     removed += 1
                     continue
@@ -936,6 +989,9 @@ def _first_diff(a, b, path=""):
                                            path + "[%s]" % _show(x[0]))
                     return _first_diff(x, y, path + "[%d]" % i)
             return None
+    if isinstance(a, list) and isinstance(b, list) and a and b and \
+            a[0] == b[0] == "seq" and len(a) != len(b):
+        return path + "{length}", ["int", len(a) - 1], ["int", len(b) - 1]
     if a != b:
         return path, a, b
     return None
@@ -1232,9 +1288,7 @@ def _is_plain(v):
         return all(_is_plain(x) for x in v.values())
     if isinstance(v, HoloPyObject):
         return True          # decided by the label's flag
-    if callable(v):
-        return True
-    return False
+    return False             # tuples, arrays, functions, classes, ...
 
 
 def _refusals():
@@ -1421,11 +1475,6 @@ def _check_object(ck, clsname, vec, mixed, tmpdir, stats, texts_fp):
             for seq in _mixed_sequences(int(mixed)):
                 _run_chain(fs, ck, obj, ref, seq, tmpdir, counter, plain,
                            texts, extra, cache=cache)
-        # the original must not be changed by being saved
-        again = _observe(obj)
-        if again != ref:
-            fs.add("original-untouched", "changed",
-                   "saving changed the original object", "after all targets")
     stats["objects"] = stats.get("objects", 0) + 1
     for k in fs.notes:
         stats[k] = stats.get(k, 0) + 1
